@@ -1,5 +1,6 @@
 // Kani leaf crate: the float expressions Verus abstracts (R14), on the text of /repo, loop-free, full domain.
 #![allow(unused)]
+use std::time::Duration;
 
 fn leaf_failure_rate(failure_count: usize, total_count: usize) -> f64 {
 //@leaf circuit Circuit::evaluate_window/failure_rate
@@ -14,15 +15,10 @@ fn leaf_buckets_passed(elapsed_secs: f64, bucket_secs: f64) -> u32 {
 //@leaf limiter SlidingCounterState::maybe_rotate_bucket/buckets_passed
 }
 
-/// the wait estimate as an f64 number of seconds (the conversion to Duration preserves > 0 for values >= 1ns; see harness)
-fn vx_from_secs_f64(secs: f64) -> f64 {
-    #[cfg(kani)]
-    { assert!(secs >= 0.0 && secs.is_finite(), "Duration::from_secs_f64 would panic"); }
-    secs
-}
-struct SlidingCounterState { limit_for_period: usize, bucket_secs: f64, previous_count: usize, current_count: usize }
-impl SlidingCounterState {
-//@item limiter fn:SlidingCounterState::estimate_wait_time
+/// SlidingCounterState::estimate_wait_time, VERBATIM (std Duration conversions kept)
+struct SlidingCounterStateV { limit_for_period: usize, bucket_duration: std::time::Duration, previous_count: usize, current_count: usize }
+impl SlidingCounterStateV {
+//@item limiterv fn:SlidingCounterState::estimate_wait_time
 }
 
 #[cfg(kani)]
@@ -57,39 +53,24 @@ mod harnesses {
         kani::assume(w >= 0.0 && w <= 1.0);
         if leaf_weighted_count(p, w, c) < limit as f64 { assert!(c < limit); }
     }
-    /// C02/C15: when no slot is free (weighted >= limit) the estimated wait is total (no panic) and at least one nanosecond,
-    /// so Ok(ZERO) is returned only together with a consumed permit. Domain: counts <= 10^4, bucket 1ms..1day, and the call is
-    /// not within the last millionth of the bucket (elapsed/bucket <= 0.999999; closer than that the f64 estimate can round
-    /// below 1ns — a named rounding assumption, see DESIGN).
-    #[kani::proof]
-    fn estimate_wait_positive_when_full() {
-        // the estimate is the bucket duration times a dimensionless wait ratio: the bucket is fixed to 1 s here (the scaling is one
-        // more positive multiplication; symbolic bucket durations make CBMC's float division run beyond 15 min)
-        let s = SlidingCounterState { limit_for_period: kani::any(), bucket_secs: 1.0, previous_count: kani::any(), current_count: kani::any() };
-        let ratio: f64 = kani::any();
-        kani::assume(ratio >= 0.0 && ratio <= 0.999_999);
-        kani::assume(s.limit_for_period >= 1 && s.limit_for_period <= 10_000 && s.previous_count <= 10_000 && s.current_count <= s.limit_for_period);
-        let weighted = leaf_weighted_count(s.previous_count, 1.0 - ratio, s.current_count);
-        kani::assume(!(weighted < s.limit_for_period as f64));
-        let w = s.estimate_wait_time(ratio);
-        assert!(w >= 1.0e-6);
-    }
-    /// BOUNDED stand-in of the harness above (which does not close in 20 min): previous_count is enumerated as a constant 0..=3,
+    /// C02/C15, BOUNDED (the harness over counts <= 10^4 with a symbolic previous_count did not close in 20 min and was removed):
+    /// when no slot is free the estimated wait is at least one microsecond of a 1 s bucket. previous_count is enumerated as a constant 0..=3,
     /// limit <= 4, current <= limit; ratio symbolic. Bound stated in the evidence; never counted as proved.
     #[kani::proof]
     #[kani::unwind(5)]
     fn estimate_wait_positive_when_full_small() {
+        use std::time::Duration;
         let limit: usize = kani::any(); let current: usize = kani::any();
         let ratio: f64 = kani::any();
         kani::assume(ratio >= 0.0 && ratio <= 0.999_999);
         kani::assume(limit >= 1 && limit <= 4 && current <= limit);
         let mut p: usize = 0;
         while p <= 3 {
-            let s = SlidingCounterState { limit_for_period: limit, bucket_secs: 1.0, previous_count: p, current_count: current };
+            let s = SlidingCounterStateV { limit_for_period: limit, bucket_duration: Duration::from_secs(1), previous_count: p, current_count: current };
             let weighted = leaf_weighted_count(p, 1.0 - ratio, current);
             if !(weighted < limit as f64) {
                 let w = s.estimate_wait_time(ratio);
-                assert!(w >= 1.0e-6);
+                assert!(w >= Duration::from_micros(1));
             }
             p += 1;
         }
